@@ -216,7 +216,7 @@ func propC14(r *kernel.Run) {
 
 	for i := 0; i < nconn; i++ {
 		name := fmt.Sprintf("hostile%d", i)
-		kind := Pick2(tp, "raw-bytes", "alpn", "alpn", "alpn", "dropped-handshake", "dropped-handshake", "stall-then-drop", "unauthorized-fetch")
+		kind := Pick2(tp, "raw-bytes", "alpn", "alpn", "alpn", "dropped-handshake", "dropped-handshake", "stall-then-drop", "unauthorized-fetch", "peer-aborts-with-alert")
 		class := ""
 		// the server's own Close of a refused/handled connection may report an error (peer reset): still a per-connection matter
 		closeErr := tp.Draw(4) == 0
@@ -279,6 +279,19 @@ func propC14(r *kernel.Run) {
 			res := w.DialHonest(name, nodeW, w.Addr)
 			_ = res
 			r.Count("fault.dropped_handshake", 1)
+		case "peer-aborts-with-alert":
+			// a TLS client that verifies the certificate it is shown against an empty pool and aborts the handshake with a
+			// fatal alert: the server sees the peer's alert (a net.Error), which is still a per-connection matter
+			list := []string{"h2"}
+			class = "base-tls-client-rejects-certificate"
+			if tp.Draw(2) == 0 {
+				req, _ := BuildFetch(HonestSpec(NewIdent("f")))
+				b, _ := proto.Marshal(req)
+				list, class = chunkALPN(nodeenrollment.FetchNodeCredsNextProtoV1Prefix, base64.RawStdEncoding.EncodeToString(b)), "fetch-client-rejects-certificate"
+			}
+			cert, _ := selfSignedTLS("attacker", x509.ExtKeyUsageClientAuth)
+			w.rawClient(name, &tls.Config{NextProtos: list, RootCAs: x509.NewCertPool(), MinVersion: tls.VersionTLS13, ServerName: "server", Certificates: []tls.Certificate{cert}})
+			r.Count("fault.peer_alert", 1)
 		case "unauthorized-fetch":
 			// not hostile as such: an unauthorized node fetching; the fetch handshake completes and the server closes the connection
 			class = "pending-node"
